@@ -17,6 +17,7 @@ import (
 	"github.com/evanw/esbuild/internal/logger"
 	"github.com/evanw/esbuild/internal/renamer"
 	"github.com/evanw/esbuild/internal/sourcemap"
+	"github.com/evanw/esbuild/internal/verifhook"
 )
 
 var positiveInfinity = math.Inf(1)
@@ -337,6 +338,9 @@ func (p *printer) addSourceMapping(loc logger.Loc) {
 }
 
 func (p *printer) addSourceMappingForName(loc logger.Loc, name string, ref ast.Ref) {
+	if verifhook.Enabled && verifhook.SymbolTags() {
+		p.print(verifSymbolTag(p.symbols, ref))
+	}
 	if p.options.AddSourceMappings {
 		if originalName := p.symbols.Get(ast.FollowSymbols(p.symbols, ref)).OriginalName; originalName != name {
 			p.builder.AddSourceMapping(loc, originalName, p.js)
